@@ -4,7 +4,7 @@ open WV.C11
 
 def showEv : Event → String
   | .key x => s!"key {x.name}" | .vers x => s!"vers {x.name}" | .dilate x => s!"dilate {x.name}"
-  | .deliver x => s!"deliver {x.name}" | .connect x => s!"connect {x.name}" | .turn1 x => s!"turn1 {x.name}"
+  | .deliver x => s!"deliver {x.name}" | .connect x => s!"connect {x.name}" | .dial x => s!"dial {x.name}" | .cut x => s!"cut {x.name}" | .turn1 x => s!"turn1 {x.name}"
   | .sigrec x => s!"sigrec {x.name}" | .hs l => s!"hs {l}" | .kcmf l => s!"kcmf {l}" | .kcml l => s!"kcml {l}"
   | .lose x l => s!"lose {x.name} {l}"
   | .write x => s!"write {x.name}" | .tick x => s!"tick {x.name}"
